@@ -17,7 +17,7 @@ var intrinsicNames = map[string]bool{
 	"vBytesEq": true, "vNative": true, "vHashOf": true, "vSealed": true, "vAssertStrEqual": true,
 	"vASCII": true, "vObjID": true, "vLog": true, "vFromRNG": true, "vAllocLimit": true, "vPeerAd": true, "vNow": true, "vSymbolic": true,
 	"vASCIIStr": true, "vNoneOf": true, "vClockWindow": true, "vIteInt": true, "vIteStr": true, "vAdSetStrIf": true, "vPick": true, "vIn": true, "vImplies": true, "vOr": true, "vAnd": true,
-	"vTrackBegin": true, "vTrackEnd": true, "vIsNative": true, "vAssertNoLocksetConflict": true, "vFSEvents": true, "vRealBuffer": true,
+	"vTrackBegin": true, "vTrackEnd": true, "vIsNative": true, "vAssertNoLocksetConflict": true, "vFSEvents": true, "vRealBuffer": true, "vClockFrozen": true,
 }
 
 func isHarnessIntrinsic(n string) bool { return intrinsicNames[n] }
